@@ -31,12 +31,9 @@ def cacheEnqueueUnlock (eid : Nat) (it : LItem) : M Unit := do
 /-- `EventSubscription.removeCount` (+ gauge, not modelled). -/
 def removeCount (eid : Nat) (n : Int) : M Unit := do
   let e ← getEntry eid
-  let cnt := e.count - n
-  if cnt == 0 && n != 0 then
-    if e.evictPending then doPanic "timerqueue: Value already in queue"
-    setEntry eid { e with count := cnt, evictPending := true }
-  else
-    setEntry eid { e with count := cnt }
+  let (cnt, pend, pnc) := removeCountPure e.count n e.evictPending
+  if pnc then doPanic "timerqueue: Value already in queue"
+  setEntry eid { e with count := cnt, evictPending := pend }
 
 /-- `Cache.getSubscription`; `none` = the subscribe at the messaging system failed
     (subject too long), after the count has been given back. -/
@@ -46,8 +43,8 @@ def getSubscription (name : String) (subscribe : Bool) : M (Option Nat) := do
     | some eid => do
       -- addCount
       let e ← getEntry eid
-      setEntry eid { e with count := e.count + 1,
-                            evictPending := if e.count == 0 then false else e.evictPending }
+      let (cnt, pend) := addCountPure e.count e.evictPending
+      setEntry eid { e with count := cnt, evictPending := pend }
       pure eid
     | none => do
       let eid ← fresh
